@@ -131,6 +131,18 @@ theorem static_date_literal (a b c d e f g h : Char) (ty : Str)
     Lexer.defaultIsDynamic [a, b, c, d, '-', e, f, '-', g, h] ty = some false :=
   static_single_token "DATE" _ ty (by simp) (by decide) (Lexer.scan_date a b c d e f g h ha hb hc hd he hf hg hh)
 
+/-- a dateTime literal `dddd-dd-ddTdd:dd:dd` is a static default for EVERY element type name — in particular for the
+    other spellings of the date / dateTime types (`datetime`, `date time`, `q date`, …): it is one DATETIME token, so
+    the hyphen rule (which the code applies by type name, finding F47) never comes into play for well-formed literals -/
+theorem static_datetime_literal (y1 y2 y3 y4 m1 m2 d1 d2 h1 h2 n1 n2 s1 s2 : Char) (ty : Str)
+    (hy1 : isDigit y1 = true) (hy2 : isDigit y2 = true) (hy3 : isDigit y3 = true) (hy4 : isDigit y4 = true)
+    (hm1 : isDigit m1 = true) (hm2 : isDigit m2 = true) (hd1 : isDigit d1 = true) (hd2 : isDigit d2 = true)
+    (hh1 : isDigit h1 = true) (hh2 : isDigit h2 = true) (hn1 : isDigit n1 = true) (hn2 : isDigit n2 = true)
+    (hs1 : isDigit s1 = true) (hs2 : isDigit s2 = true) :
+    Lexer.defaultIsDynamic [y1, y2, y3, y4, '-', m1, m2, '-', d1, d2, 'T', h1, h2, ':', n1, n2, ':', s1, s2] ty = some false :=
+  static_single_token "DATETIME" _ ty (by simp) (by decide)
+    (Lexer.scan_datetime y1 y2 y3 y4 m1 m2 d1 d2 h1 h2 n1 n2 s1 s2 hy1 hy2 hy3 hy4 hm1 hm2 hd1 hd2 hh1 hh2 hn1 hn2 hs1 hs2)
+
 /-- a quote-free word (an ASCII letter or `_`, then letters / digits / `_`) is a static default, for every
     element type: it lexes as one NAME token -/
 theorem static_word (c : Char) (cs ty : Str) (hc : c ∈ Lexer.letters) (h : ∀ x ∈ cs, x ∈ Lexer.wordChars) :
@@ -407,6 +419,10 @@ example : expSetP dynEx subEx (["data".toList, "r".toList, "b".toList], some ["d
   simp [expSetP, hasDynDefault, dynEx, exB, subEx]
 example : Lexer.allDigits "2024".toList := by intro c hc; simp at hc; rcases hc with rfl | rfl | rfl | rfl <;> decide
 example : 'y' ∈ Lexer.letters ∧ ∀ x ∈ "es_2".toList, x ∈ Lexer.wordChars := by decide
+-- F47 on the model: the hyphen rule follows the type NAME
+example : Lexer.dynamicPinned "2020-01-01 - 1".toList "dateTime".toList = false
+    ∧ Lexer.dynamicPinned "2020-01-01 - 1".toList "datetime".toList = true
+    ∧ Lexer.dynamicPinned "2020-01-01T00:00:00".toList "datetime".toList = false := by decide +kernel
 -- lexer: the traps of DESIGN Appendix F on the pinned rules
 example : (scanWith pinnedRules "a <= b".toList).1.map (·.1) = ["NAME", "WHITESPACE", "OPS_COMP", "OPS_COMP", "WHITESPACE", "NAME"] := by
   decide +kernel
